@@ -240,6 +240,13 @@ def build_class(run, cs):
         raw_init.__name__ = "__init__"
         raw_init.__qualname__ = unit
         ns["__init__"] = raw_init
+    if cs.get("setattr_alias"):
+        # the class implements attribute assignment under another name and binds it: ``__setattr__ = _set``
+        def _set(self, attr_name, value):
+            object.__setattr__(self, attr_name, value)
+
+        ns["_set"] = _set
+        ns["__setattr__"] = _set
     cls_box = [None]
     if shape == "slots":
         ns["__slots__"] = ("x", "_flags", "_label", "_repr_armed") if base is None else ("y%s" % name,)
@@ -438,6 +445,8 @@ def generate(r, tier, forms=False):
             root["init_sets_attr"] = True
 
     classes_shape = [shapes_root[0]]
+    if root["shape"] == "plain" and r.random() < 0.12:
+        root["setattr_alias"] = True
 
     def gen_members(c, level):
         pool = [("g%d" % level, "gen"), ("m%d" % level, "method"), ("n%d" % level, "method"), ("_p%d" % level, "protected"), ("__q%d" % level, "private"), ("s%d" % level, "static"), ("c%d" % level, "class"), ("pr%d" % level, "prop"), ("_pp%d" % level, "protected_prop")]
